@@ -9,6 +9,7 @@ C03.park       no session -> the stanza is parked, keys are requested, the conti
 C03.once       each decrypt handler delivers exactly once, a stanza that carries the decrypted payload in a proto child
 C03.skdm       both recvMessageStanza implementations look at the payload before delivering (a payload that only
                carries a sender-key distribution must not surface)
+C03.persist    (C13.commit adopted) every key-store write is committed when the store call returns: restarts between messages
 C03.map        the manager maps each library exception to the same-named exception the layer handles; unpads on request
 """
 import ast
@@ -165,11 +166,112 @@ def rule_enq(ctx):
     mx = alts(Evaluator(repo, cls.module, cls).class_const(cls, "MAX_SENT_QUEUE"))
     ok = "len(self.sentQueue) >= self.__class__.MAX_SENT_QUEUE" in src and "self.sentQueue.pop(0)" in src and "self.sentQueue.append(node)" in src and mx and mx[0] >= 100
     ctx.check("C03.enq", bool(ok), where(SEND, "AxolotlSendLayer.enqueueSent", eq.lineno), "bounded queue, drop-oldest, MAX=%s" % (mx[0] if mx else "?"), "the sent queue must be bounded (>= 100) and drop its oldest entry when full", "bounded, oldest dropped")
-    # a retry receipt re-encrypts the queued original
+    rule_requeue(ctx)
+
+
+def rule_requeue(ctx):
+    """receipts for a queued message, by abstract execution of AxolotlSendLayer.receive over the cells of
+    (participant present?, receipt type): a group message stays queued (other participants may still ask for a retry);
+    a retry receipt is acknowledged, the requester's keys are fetched and the continuation re-encrypts the queued
+    original for that receipt; every other receipt - and every receipt for a message that is not queued - bubbles up once."""
+    repo = ctx.repo
     rc = repo.method(SEND, "AxolotlSendLayer", "receive")
-    srcr = unparse(rc)
-    ok = "getEnqueuedMessageNode(protocolTreeNode['id']" in srcr and "processPlaintextNodeAndSend(node, retry_entity)" in srcr and "retryReceiptEntity.ack()" in srcr
-    ctx.check("C03.enq", ok, where(SEND, "AxolotlSendLayer.receive", rc.lineno), "retry receipt -> queued original re-encrypted", "a retry receipt must be acknowledged and the queued original re-encrypted for the requester", "ack, fetch keys, re-encrypt the queued original")
+    w = where(SEND, "AxolotlSendLayer.receive", rc.lineno)
+
+    def run(cell, domains, queued=True):
+        keyreqs, resent = [], []
+        hooks = {"method:getKeysFor": lambda itp, recv, a, k, env, d, e: (keyreqs.append((a, k)), C_NONE)[1],
+                 "method:processPlaintextNodeAndSend": lambda itp, recv, a, k, env, d, e: (resent.append(a), C_NONE)[1]}
+        it, layer, cls = mk_layer(repo, SEND, "AxolotlSendLayer", cell, domains, hooks)
+        it.pure_depth = 0
+        msg = Node(("c", "message"), None)
+        msg.attrs.update({"id": MID if queued else ("c", "ANOTHER-ID"), "to": MFROM, "type": ("c", "text")})
+        layer[1].fields["sentQueue"] = ("list", [("node", msg)])
+        node = symbolic_node("receipt")
+        node[1].path = None
+        node[1].attrs.update({"id": MID, "from": A((), "from"), "participant": A((), "participant"), "type": A((), "type"), "t": ("c", "1")})
+        rn = Node(("c", "retry"), None)
+        rn.attrs.update({"count": ("c", "1"), "id": MID, "t": ("c", "1"), "v": ("c", "1")})
+        node[1].children.append(("one", rn))
+        reg = Node(("c", "registration"), None)
+        reg.data = ("ext", "regid", [])
+        node[1].children.append(("one", reg))
+        res = {"raised": None}
+        try:
+            it.method_call(layer, "receive", [node], {}, {"@module": cls.module, "@owner": cls}, 0, None)
+        except _Raise as r:
+            res["raised"] = r.text
+        res["effects"] = list(flat_effects(it.effects))
+        q = layer[1].fields.get("sentQueue")
+        res["still_queued"] = bool(q and q[0] == "list" and any(x[0] == "node" and x[1] is msg for x in q[1]))
+        res["keyreqs"], res["resent"], res["msg"], res["node"], res["it"] = keyreqs, resent, msg, node, it
+        # run the key-fetch continuation with one successful jid
+        if keyreqs and len(keyreqs[0][0]) > 1:
+            try:
+                it.apply(keyreqs[0][0][1], [("list", [("c", "x")]), ("dict", {})], {}, {}, 0, None)
+            except _Raise as r:
+                res["raised"] = "continuation: " + r.text
+        return res, it
+
+    for queued in (True, False):
+        try:
+            cells = enumerate_cells(lambda c, d: run(c, d, queued), {}, max_cells=200)
+        except Budget:
+            ctx.undecided("C03.enq", w, "receipt for a %s message" % ("queued" if queued else "message that is not queued"), "budget exceeded")
+            continue
+        groups = {}
+        for cell, r in cells:
+            part = cell.get(("A", (), "participant"))
+            typ = cell.get(("A", (), "type"))
+            kind = ("group" if part is not None else "1:1", "retry" if typ == "retry" else "other")
+            groups.setdefault(kind, []).append((cell, r))
+        ctx.units.setdefault("C03.receipt_cells", {})["queued" if queued else "not queued"] = {"%s/%s" % k: len(v) for k, v in sorted(groups.items())}
+        for kind, lst in sorted(groups.items()):
+            bad = []
+            for cell, r in lst:
+                ups = [e for e in r["effects"] if e[0] == "UP"]
+                dns = [node_of(e) for e in r["effects"] if e[0] == "DOWN"]
+                if r["raised"]:
+                    bad.append("raises %s" % r["raised"][:60])
+                    continue
+                if not queued:
+                    if len(ups) != 1 or node_of(ups[0]) is not r["node"][1] or dns or r["keyreqs"]:
+                        bad.append("a receipt for a message the layer does not hold must bubble up once, untouched (up %d, down %d)" % (len(ups), len(dns)))
+                    continue
+                if kind[0] == "group" and not r["still_queued"]:
+                    bad.append("the group message is removed from the sent queue by this receipt: a later retry receipt of another participant finds nothing to re-encrypt")
+                if kind[1] == "retry":
+                    ack = [d for d in dns if d is not None and tagname(d) == "ack"]
+                    if len(ack) != 1 or ups:
+                        bad.append("a retry receipt must be acknowledged once and not bubble up (acks %d, up %d)" % (len(ack), len(ups)))
+                    if len(r["keyreqs"]) != 1:
+                        bad.append("the requester's keys must be fetched once (requests %d)" % len(r["keyreqs"]))
+                    else:
+                        jids = r["keyreqs"][0][0][0]
+                        want = A((), "participant") if kind[0] == "group" else A((), "from")
+                        if not (jids[0] == "list" and len(jids[1]) == 1 and jids[1][0] == want):
+                            bad.append("keys are fetched for %s instead of the requester" % show(jids)[:50])
+                    if len(r["resent"]) != 1 or not (r["resent"][0] and r["resent"][0][0][0] == "node" and r["resent"][0][0][1] is r["msg"]) or len(r["resent"][0]) < 2 or r["resent"][0][1] == C_NONE:
+                        bad.append("after the keys arrive the queued original must be re-encrypted for this retry receipt (re-sent %d)" % len(r["resent"]))
+                else:
+                    if len(ups) != 1 or node_of(ups[0]) is not r["node"][1] or r["keyreqs"] or r["resent"]:
+                        bad.append("a non-retry receipt must bubble up once and trigger nothing else (up %d)" % len(ups))
+            ctx.check("C03.enq", not bad, w, "%s receipt, %s, message %s" % (kind[1], kind[0], "queued" if queued else "not queued"), "; ".join(sorted(set(bad))[:3]),
+                      "%d cell(s)" % len(lst))
+
+
+def rule_persist(ctx):
+    """'across process restarts of a party between messages': the ratchet / sender-key / prekey state a message
+    advanced must be committed when the store call returns - C13.commit, adopted (a lost commit replays a used
+    message key after a restart: every recipient drops the message as a duplicate)."""
+    from . import c13
+    from ..report import Ctx
+    scratch = Ctx(ctx.repo, "C13", ctx.tier)
+    for r in ("C13.commit", "C13.replace", "C13.schema", "C13.blob"):
+        scratch.rule(r, "", 0)
+    model = c13.StoreModel(scratch)
+    c13.rule_commit_replace(scratch, model)
+    ctx.adopt(scratch, {"C13.commit": "C03.persist"})
 
 
 def exc_raiser(repo, name):
@@ -399,12 +501,13 @@ def rule_map(ctx):
 
 def run(ctx):
     ctx.rule("C03.taint", "only envelopes / non-message stanzas leave the send layer downward", floor=2)
-    ctx.rule("C03.enq", "queue before send; bounded queue; retry re-encrypts", floor=4)
+    ctx.rule("C03.enq", "queue before send; bounded queue; receipts for queued messages by abstract execution (keep group messages, retry re-encrypts)", floor=7)
     ctx.rule("C03.dup", "duplicate -> one receipt, no delivery", floor=1)
     ctx.rule("C03.retry", "retry receipts with per-id counter", floor=3)
     ctx.rule("C03.park", "park and fetch keys, continuation re-processes", floor=3)
     ctx.rule("C03.once", "one delivery per decrypt handler with the decrypted proto child", floor=4)
     ctx.rule("C03.skdm", "payload consulted before delivery in both message layers", floor=2)
+    ctx.rule("C03.persist", "every key-store write is committed before the store call returns (C13.commit adopted)", floor=9)
     ctx.rule("C03.map", "exception mapping and padding in the manager", floor=8)
     ctx.assume("python-axolotl's ratchets, sessions and exceptions behave as documented; conversations, restarts and group fan-out are not decided")
     rule_taint(ctx)
@@ -413,3 +516,4 @@ def run(ctx):
     rule_once(ctx)
     rule_skdm(ctx)
     rule_map(ctx)
+    rule_persist(ctx)
